@@ -31,6 +31,7 @@ import (
 	common2 "github.com/elastos/Elastos.ELA/core/types/common"
 	"github.com/elastos/Elastos.ELA/core/types/functions"
 	"github.com/elastos/Elastos.ELA/core/types/interfaces"
+	"github.com/elastos/Elastos.ELA/core/types/payload"
 	"github.com/elastos/Elastos.ELA/crypto"
 	"github.com/elastos/Elastos.ELA/dpos/state"
 	"github.com/elastos/Elastos.ELA/elanet/pact"
@@ -72,6 +73,10 @@ func getChain() *blockchain.BlockChain {
 		p.GenesisBlock = core.GenesisBlock(*p.FoundationProgramHash)
 		// every block of the harness carries the easiest target
 		p.PowConfiguration.PowLimit = new(big.Int).Sub(new(big.Int).Lsh(big.NewInt(1), 255), big.NewInt(1))
+		// allow the input-less RevertToPOW transaction type at the fixture's height: a transaction
+		// without inputs is only protected by the duplicate-txid check (the duplicate-UTXO check
+		// never sees it)
+		p.DPoSConfiguration.RevertToPOWStartHeight = 0
 		blockchain.FoundationAddress = *p.FoundationProgramHash
 		params = &p
 		var err error
@@ -278,6 +283,13 @@ func freshTransfer(r *hx.Rand, tmpl interfaces.Transaction, k int) interfaces.Tr
 	return cloneTx(tx)
 }
 
+// an input-less, output-less transaction (RevertToPOW); distinct working heights give distinct ids
+func freshInputless(r *hx.Rand) interfaces.Transaction {
+	tx := functions.CreateTransaction(common2.TxVersion09, common2.RevertToPOW, 0,
+		&payload.RevertToPOW{Type: payload.NoBlock, WorkingHeight: uint32(r.U64())}, nil, nil, nil, 0, nil)
+	return cloneTx(tx)
+}
+
 // seal computes the merkle root, attaches a fresh aux pow and solves it.
 func seal(b *types.Block) {
 	ids := make([]common.Uint256, 0, len(b.Transactions))
@@ -363,8 +375,17 @@ func gen(g *hx.Gen) {
 			n = 1 + r.Intn(40)
 		}
 		txs := []interfaces.Transaction{cloneTx(cbT)}
+		// composition: transfers only / mixed / input-less only; in two thirds of the blocks the last
+		// two transactions are input-less, so that the root-preserving duplications (last transaction
+		// of an odd block, last pair of a block with 2 mod 4 transactions) hit them
+		comp := r.Intn(3)
 		for j := 1; j < n; j++ {
-			txs = append(txs, freshTransfer(r, trT, 1+r.Intn(3)))
+			inputless := comp == 2 || (comp == 1 && r.Bool()) || (i%3 != 0 && j >= n-2)
+			if inputless {
+				txs = append(txs, freshInputless(r))
+			} else {
+				txs = append(txs, freshTransfer(r, trT, 1+r.Intn(3)))
+			}
 		}
 		blk := withTxs(fixture, txs)
 		seal(blk)
@@ -411,6 +432,9 @@ func gen(g *hx.Gen) {
 		if n >= 2 {
 			mut(append(cp(), txs[n-2], txs[n-1]))
 		}
+		if n >= 4 {
+			mut(append(cp(), txs[n-4:]...))
+		}
 		// change one transaction (fresh transfer / lock time) , insert one, second coinbase
 		for j := 1; j < n; j++ {
 			if n > 12 && !r.Chance(25) {
@@ -444,7 +468,13 @@ func gen(g *hx.Gen) {
 			emitSanity(g, nb)
 		}
 		// blocks that are sealed over a bad transaction list: the header is valid, the list is not
-		switch r.Intn(6) {
+		switch r.Intn(7) {
+		case 6: // duplicated input-less transaction under a root that commits to it
+			il := freshInputless(r)
+			m := append(cp(), il, il)
+			nb := withTxs(fixture, m)
+			seal(nb)
+			emitSanity(g, nb)
 		case 0: // duplicated transaction under a root that commits to it
 			if n >= 2 {
 				m := append(cp(), txs[n-1])
@@ -453,11 +483,17 @@ func gen(g *hx.Gen) {
 				emitSanity(g, nb)
 			}
 		case 1: // same outpoint spent by two transactions
-			if n >= 2 {
+			var spent *common2.Input
+			for _, tx := range txs[1:] {
+				if len(tx.Inputs()) > 0 {
+					spent = tx.Inputs()[0]
+				}
+			}
+			if spent != nil {
 				m := cp()
 				t2 := freshTransfer(r, trT, 2)
 				ins := t2.Inputs()
-				ins[r.Intn(2)] = txs[1+r.Intn(n-1)].Inputs()[0]
+				ins[r.Intn(2)] = spent
 				t2.SetInputs(ins)
 				m = append(m, cloneTx(t2))
 				nb := withTxs(fixture, m)
